@@ -64,11 +64,20 @@ def context_params(fn, program=None) -> tuple[list[str], dict[str, str]]:
 
     init = program.func("Settings.__init__")
     attrs = []
+    none_attrs: set[str] = set()  # settings that start out as None (the factory manager before its first use)
     for n in ast.walk(init.analysis_node):
         if isinstance(n, (ast.Assign, ast.AnnAssign)):
             for t in (n.targets if isinstance(n, ast.Assign) else [n.target]):
                 if isinstance(t, ast.Attribute) and isinstance(t.value, ast.Name) and t.value.id == "self" and t.attr not in attrs:
                     attrs.append(t.attr)
+                    a_ = init.node.args
+                    defaults_ = dict(zip([x.arg for x in (a_.posonlyargs + a_.args)][-len(a_.defaults):] if a_.defaults else [], a_.defaults))
+                    defaults_.update({x.arg: d for x, d in zip(a_.kwonlyargs, a_.kw_defaults) if d is not None})
+                    v_ = n.value
+                    if isinstance(v_, ast.Name) and v_.id in defaults_:
+                        v_ = defaults_[v_.id]  # what a Settings() built without arguments holds
+                    if isinstance(v_, ast.Constant) and v_.value is None:
+                        none_attrs.add(t.attr)
     for prm in params:
         obj = MObj("Settings", {a: ("old", a) for a in attrs})
         seen: dict[str, object] = {}
@@ -77,7 +86,7 @@ def context_params(fn, program=None) -> tuple[list[str], dict[str, str]]:
             seen.update(obj.fields)
             raise _Return(None)
 
-        ex = AbsExec(fn.qualname, {"yield": on_yield})
+        ex = AbsExec(fn.qualname, {"yield": on_yield}, helpers={k: v for k, v in fn.cls.methods.items() if k != fn.name} if fn.cls is not None else None)
         env = {"self": obj, **{q: (("probe", prm) if q == prm else None) for q in params}}
         try:
             ex.block(list(fn.analysis_node.body), env)
@@ -264,11 +273,20 @@ def context_semantics(check: Check) -> None:
     node = fn.analysis_node
     params, renames = context_params(fn, p)
     attrs = []
+    none_attrs: set[str] = set()  # settings that start out as None (the factory manager before its first use)
     for n in ast.walk(init.analysis_node):
         if isinstance(n, (ast.Assign, ast.AnnAssign)):
             for t in (n.targets if isinstance(n, ast.Assign) else [n.target]):
                 if isinstance(t, ast.Attribute) and isinstance(t.value, ast.Name) and t.value.id == "self" and t.attr not in attrs:
                     attrs.append(t.attr)
+                    a_ = init.node.args
+                    defaults_ = dict(zip([x.arg for x in (a_.posonlyargs + a_.args)][-len(a_.defaults):] if a_.defaults else [], a_.defaults))
+                    defaults_.update({x.arg: d for x, d in zip(a_.kwonlyargs, a_.kw_defaults) if d is not None})
+                    v_ = n.value
+                    if isinstance(v_, ast.Name) and v_.id in defaults_:
+                        v_ = defaults_[v_.id]  # what a Settings() built without arguments holds
+                    if isinstance(v_, ast.Constant) and v_.value is None:
+                        none_attrs.add(t.attr)
     if not params or not attrs:
         raise AnalysisError("Settings.context / Settings.__init__: parameters or attributes not found")
     attr_of = {prm: renames.get(prm, prm) for prm in params}
@@ -285,7 +303,7 @@ def context_semantics(check: Check) -> None:
             body(obj)
             return None
 
-        ex = AbsExec(fn.qualname, {"yield": on_yield})
+        ex = AbsExec(fn.qualname, {"yield": on_yield}, helpers={k: v for k, v in fn.cls.methods.items() if k != fn.name} if fn.cls is not None else None)
         env = {"self": obj}
         for prm in params:
             env[prm] = (("old", attr_of[prm]) if same else ("new", tag, prm)) if prm in named else None
@@ -301,15 +319,24 @@ def context_semantics(check: Check) -> None:
             return "yields", str(state["yields"])
         return "ok", None
 
+    initial_none = [False]
+
+    def old(a: str) -> object:
+        return None if initial_none[0] and a in none_attrs else ("old", a)
+
     def fresh() -> MObj:
-        return MObj("Settings", {a: ("old", a) for a in attrs})
+        return MObj("Settings", {a: old(a) for a in attrs})
 
     def note(kind: str, text: str) -> None:
         bad.setdefault(kind, text)
 
     subsets = [c for k in range(len(params) + 1) for c in itertools.combinations(params, k)]
     try:
-        for named, same in [(n_, False) for n_ in subsets] + [(n_, True) for n_ in subsets if n_]:
+        runs = [(n_, False, False) for n_ in subsets] + [(n_, True, False) for n_ in subsets if n_]
+        if none_attrs:  # once more from the state in which those settings still hold their initial None
+            runs += [(n_, False, True) for n_ in subsets if any(attr_of[q] in none_attrs for q in n_)]
+        for named, same, from_none in runs:
+            initial_none[0] = from_none
             for exit_cls in EXITS:
                 cases += 1
                 obj = fresh()
@@ -323,7 +350,8 @@ def context_semantics(check: Check) -> None:
                         raise Raised(exit_cls)
 
                 outcome, cls = run_context(obj, named, "c1", body, same)
-                what = f"context({', '.join(named) or 'nothing'}{' - requesting the values the settings already hold' if same else ''}) left {'normally' if exit_cls is None else 'by ' + exit_cls}"
+                what = f"context({', '.join(named) or 'nothing'}{' - requesting the values the settings already hold' if same else ''}" \
+                    f"{' - entered while ' + ', '.join(sorted(none_attrs)) + ' is still None' if from_none else ''}) left {'normally' if exit_cls is None else 'by ' + exit_cls}"
                 if outcome == "internal":
                     note("internal", f"{what}: internal error {cls}")
                     continue
@@ -336,10 +364,10 @@ def context_semantics(check: Check) -> None:
                     note("swallow", f"{what}: the exception is {'swallowed' if outcome == 'ok' else 'replaced by ' + str(cls)}")
                 for prm in params:
                     a = attr_of[prm]
-                    want_in = ("new", "c1", prm) if prm in named and not same else ("old", a)
+                    want_in = ("new", "c1", prm) if prm in named and not same else old(a)
                     if inside.get(a) != want_in:
                         note("inside", f"{what}: inside the context `{a}` holds {inside.get(a)} (specified {want_in})")
-                    want_after = ("old", a) if prm in named else ("body", a)
+                    want_after = old(a) if prm in named else ("body", a)
                     got = obj.fields.get(a)
                     if got != want_after:
                         kind = "not-restored" if prm in named else "touched"
@@ -349,6 +377,7 @@ def context_semantics(check: Check) -> None:
                 extra = set(obj.fields) - set(attrs)
                 if extra:
                     note("extra", f"{what}: leaves new attributes {sorted(extra)} on the settings object")
+        initial_none[0] = False
         # nesting: an inner context inside the body of an outer one, inner left by an exception that the outer body lets through / handles
         pairs = [((params[0],), (params[0],)), ((params[0], params[1]), (params[1],)), ((params[0],), (params[1],)), ((), (params[0],))]
         for outer, inner in pairs:
